@@ -31,7 +31,7 @@ FORCE = {
 }
 FLAVOURS = {
     # flavour: (cmake build type, compile flags, env for runs)
-    'rel': ('Release', '', {}),
+    'rel': ('Release', '-g', {}),      # the repository's own Release flags (-O3) plus debug info (no code-generation change)
     'asan': ('Verif', '-O1 -g -fno-omit-frame-pointer -fsanitize=address,undefined -fno-sanitize-recover=all',
              {'ASAN_OPTIONS': 'abort_on_error=0:detect_leaks=0:exitcode=99:detect_stack_use_after_return=1',
               'UBSAN_OPTIONS': 'print_stacktrace=1:exitcode=98'}),
